@@ -6,3 +6,7 @@ import InToto.Properties.C06
 #print axioms InToto.C06.expired_rejected_nothing_runs
 #print axioms InToto.C06.grammar_examples
 #print axioms InToto.C06.facts_date_layout
+#print axioms InToto.C06.parse_iff_grammar
+#print axioms InToto.C06.parsed_is_calendar_date
+#print axioms InToto.C06.day_numbers_are_consecutive
+#print axioms InToto.C06.earlier_stamp_is_smaller_instant
